@@ -737,14 +737,29 @@ def enumerate_as(ctx, tdir, scs, user, th, model_steps, classes, stats):
                     continue
                 seen_local.add((w_, rl))
                 g = (window_kind(w_, nme_).split("@")[0], rl)
-                reps[(nme_, i_ + 1)] = 0 if g not in seen_global else 1
+                pr = 0 if g not in seen_global else 2
                 seen_global.add(g)
+                # the state right BEFORE the call (everything un-gated that precedes it, e.g. registry writes, is done)
+                # and the state right after it
+                for kk in (i_, i_ + 1):
+                    if kk <= len(trc):
+                        reps[(nme_, kk)] = min(pr, reps.get((nme_, kk), 9))
+        # dedicated scenarios: every gate position of the service open and of the service drop
+        if nme_.startswith(("open_", "create_")):
+            w_ = "start"
+            for i_, line_ in enumerate(trc, 1):
+                if line_.startswith("access R/@M/"):
+                    w_ = line_.split(" ")[1][len("R/@M/"):]
+                    continue
+                ww = re.sub(r"^\d+:", "", w_)
+                if ww.startswith("svc_") or ww == "drop_s":
+                    reps[(nme_, i_)] = min(1, reps.get((nme_, i_), 9))
 
     def prio(j):
         nme, k, ka, ck, cka = j
         tr = info[nme]["ctrace"] if ck is None else info[nme]["cctrace"]
         idx = k if ck is None else ck
-        mut = 2 if (MUTATING.search(tr[idx - 1]) or (idx >= 2 and MUTATING.search(tr[idx - 2]))) else 3
+        mut = 3 if (MUTATING.search(tr[idx - 1]) or (idx >= 2 and MUTATING.search(tr[idx - 2]))) else 4
         if ck is None and not ka and (nme, k) in reps:
             mut = reps[(nme, k)]
         return (mut, hashlib.sha1(("%s|%s|%s" % (ctx.seed, uname, j)).encode()).hexdigest())
@@ -758,8 +773,8 @@ def enumerate_as(ctx, tdir, scs, user, th, model_steps, classes, stats):
     elif th:
         budget = 1000.0 / max(1, stats["nusers"])
     else:
-        # the whole quick check has 5 minutes: what proof stage, build and reference runs left, minus the reporting reserve
-        budget = max(45.0, 265.0 - (t_enum - ctx.t0))
+        # the whole quick check has 10 minutes (target 520 s + reporting): what proof stage, build and reference runs left, minus the reporting reserve
+        budget = max(60.0, float(os.environ.get("C04_QUICK_TOTAL_S", "420")) - (t_enum - ctx.t0))
     deadline = t_enum + budget
     skipped = 0
     with cf.ThreadPoolExecutor(max_workers=vlib.NPROC) as ex:
@@ -816,7 +831,8 @@ def enumerate_as(ctx, tdir, scs, user, th, model_steps, classes, stats):
                 if len(stats["samples"]) < 6:
                     stats["samples"].append({"scenario": nme, "process": proc, "crash_index": idx, "call_at_crash_point": at, "window": wk,
                                              "symptoms": [b[0] for b in bad], "root_cause": rk})
-                groups = [(rk, bad[0][0], bad[0][1])] if rk else [(None, sym, detail) for sym, detail in bad]
+                # one class per case: the root cause, or (unkeyed) the window with the complete symptom combination
+                groups = [(rk, bad[0][0], bad[0][1])] if rk else [(None, "+".join(b[0] for b in bad), {b[0]: b[1] for b in bad})]
                 for gk, sym, detail in groups:
                     key = gk or "%s:%s" % (wk, sym)
                     c = classes.setdefault(key, {"count": 0, "first": None, "points": [], "users": set(), "root_cause": gk})
@@ -942,9 +958,12 @@ def run(ctx):
             ctx.violation("%s -- first: scenario %s, %s killed at gated call %d (%s), user %s; %d crash cases in this class; matches none of the adjudicated root causes" % (
                 key, fst["scenario"], fst["process"], fst["crash_index"], fst["call_at_crash_point"], fst["run_as_user"], c["count"]), fst)
     ctx.cov["known_root_cause_case_counts"] = {k: known_counts.get(k, 0) for k in ROOT_CAUSE_KEYS}
-    for t in stats["tie_bad"][:8]:
-        ctx.violation("correspondence model<->implementation broken: resource steps of scenario %s differ from coq/model/Lifecycle.v: %s" % (t[0], t[1]),
-                      {"obligation": "trace equality per scenario", "scenario": t[0], "detail": t[1:]}, no_input=True)
+    if stats["tie_bad"]:
+        t = stats["tie_bad"][0]
+        ctx.violation("correspondence model<->implementation broken: resource steps of %d scenario(s) (%s) differ from coq/model/Lifecycle.v; first: %s" % (
+                          len(stats["tie_bad"]), ",".join(x[0] for x in stats["tie_bad"][:12]), t[1]),
+                      {"obligation": "trace equality per scenario and API window (un-killed reference trace vs. step lists of the model)",
+                       "scenarios": [list(x) for x in stats["tie_bad"]]}, no_input=not any(not c.get("root_cause") for c in classes.values()))
     if proof_ok is False and not ctx.violations:
         ctx.violation("proof obligation no longer checks: %s" % ctx.broken, {"broken": ctx.broken}, no_input=True)
     first_u = (users[0] or "self")
@@ -990,10 +1009,20 @@ SUFFIX_ROLE = [("/P_node.details", "Det"), (".node_monitor_context", "Tok"), (".
                (".blackboard_mgmt", "SRes"), (".data", "Data"), (".event_mgmt", "Data"), (".event", "Data"), (".connection", "Conn")]
 
 
-def trace_tokens(lines):
-    """state-changing calls of a trace window -> abstract steps Mk:<kind> / Rm:<kind> (consecutive repeats collapsed)"""
+def trace_tokens(lines, attach_dyn=False):
+    """state-changing calls of a trace window -> abstract steps Mk:<kind> / Rm:<kind> (consecutive repeats collapsed).
+    attach_dyn (service open): the LAST successful attach (shm_open without O_CREAT) of the dynamic config stands for the
+    registry write Mk:RegN -- register_node_id follows it without a gated call in between."""
     out = []
-    for l in lines:
+    last_attach = None
+    if attach_dyn:
+        for i, l in enumerate(lines):
+            if l.startswith("shm_open ") and l.split(" ")[1].endswith(".dynamic") and "O_CREAT" not in l and l.endswith(" ok"):
+                last_attach = i
+    for i_line, l in enumerate(lines):
+        if last_attach is not None and i_line == last_attach:
+            out.append("Mk:RegN")
+            continue
         f = l.split(" ")
         call, path = f[0], f[1]
         if f[-1] != "ok":
@@ -1045,7 +1074,7 @@ def tie_check(nme, ctrace, driver):
     last = nme.startswith("create_") or nme.startswith("full_create_")
     for label, lines in wins:
         f = label.split("_")
-        toks = trace_tokens(lines)
+        toks = trace_tokens(lines, attach_dyn=(f[0] == "svc" and len(f) > 4 and f[4] == "open"))
         if f[0] == "node":
             names[f[1]] = ("node",)
             ops.append(("node", toks, label))
